@@ -86,6 +86,8 @@ def parse_vspec(path):
             for o in parts[3:]:
                 if o.startswith("derive="):
                     ent["derive"] = o[len("derive="):]
+                if o.startswith("eval="):
+                    ent["eval"] = o[len("eval="):]
             spec["entries"].append(ent)
         elif head == "impl":
             parts = rest.split()
@@ -97,6 +99,13 @@ def parse_vspec(path):
                 if tok.startswith("nth="):
                     cur_impl["nth"] = int(tok[4:])
             spec["entries"].append(cur_impl)
+        elif head == "trait":
+            parts = rest.split()
+            cur_impl = {"type": "trait", "src": parts[0], "name": parts[1], "fns": [], "extra": [], "consts": [],
+                        "header": None, "nth": None, "trait": None}
+            spec["entries"].append(cur_impl)
+        elif head == "endtrait":
+            cur_impl = None
         elif head == "header":
             # replace the impl header (rare: where Verus cannot take the real bounds)
             cur_impl["header"] = blk
@@ -116,7 +125,7 @@ def parse_vspec(path):
                 spec["entries"].append(cur_fn)
             cur_fn.update({"ret": None, "r1": [], "r2": [], "r5": False, "contract": None, "loops": {},
                            "proofs": [], "dead": [], "nocanary": False, "sig": None, "external_body": False,
-                           "r9": [], "subst": []})
+                           "r9": [], "subst": [], "r4": False})
         elif head == "endfn":
             cur_fn = None
         elif head == "ret":
@@ -127,6 +136,8 @@ def parse_vspec(path):
             cur_fn["r2"] = [int(x) for x in rest.split(",")]
         elif head == "r5":
             cur_fn["r5"] = True
+        elif head == "r4":
+            cur_fn["r4"] = True
         elif head == "r9":
             cur_fn["r9"] = [int(x) for x in rest.split(",")] if rest else "all"
         elif head == "contract":
@@ -321,6 +332,23 @@ class UnitGen:
             edits.append((e, e, ")", "R8"))
             self.rewrites.append({"rule": "R8", "what": f"name return value `{fs['ret']}` of {qual}",
                                   "file": src.rel, "line": src.line_of(s)})
+        # R10: wildcard parameter `_: T` -> `_vx_argN: T` (Verus requires identifier parameters)
+        for k, inp in enumerate(sig["inputs"]):
+            if not inp["receiver"] and src.text(*inp["pat"]).strip() == "_":
+                edits.append((inp["pat"][0], inp["pat"][1], f"_vx_arg{k}", "R10"))
+                self.rewrites.append({"rule": "R10", "what": f"wildcard parameter {k} of {qual} named _vx_arg{k}",
+                                      "file": src.rel, "line": src.line_of(inp["pat"][0])})
+        # R4: Pin<&mut Self> receiver of an Unpin type -> &mut self
+        if fs.get("r4"):
+            recv = [i for i in sig["inputs"] if i["receiver"]]
+            if not recv:
+                raise Undecided(f"fn {qual}: R4 requested but no receiver")
+            rtxt = src.text(*recv[0]["range"])
+            if "Pin<&mut Self>" not in rtxt.replace(" ", "").replace("Pin<&mutSelf>", "Pin<&mut Self>"):
+                raise Undecided(f"fn {qual}: R4 refused (receiver is {rtxt!r})")
+            edits.append((recv[0]["range"][0], recv[0]["range"][1], "&mut self", "R4"))
+            self.rewrites.append({"rule": "R4", "what": f"receiver `{rtxt}` -> `&mut self` in {qual} (type is Unpin)",
+                                  "file": src.rel, "line": src.line_of(recv[0]["range"][0])})
         # R3: tracing macros, attributes inside bodies
         for n in nodes:
             if n["kind"] == "macro" and n["path"].split("::")[-1] in TRACING and n["is_stmt"]:
@@ -494,6 +522,24 @@ class UnitGen:
                 for at in it.get("attrs", []):
                     a = min(a, at["range"][0])
                 em.raw(f"// ---- {ent['kind']} {ent['name']} from {src.rel}:{src.line_of(a)}\n")
+                if ent.get("eval") is not None:
+                    # R11: a const whose initialiser is a compile-time size_of is replaced by its value
+                    txt = src.text(a, b)
+                    m = re.match(r"(?s)(.*?\bconst\s+\w+\s*:\s*\w+\s*=\s*)(.*?);\s*$", txt)
+                    SIZES = {"u8": 1, "u16": 2, "u32": 4, "u64": 8, "u128": 16, "i8": 1, "i16": 2, "i32": 4, "i64": 8, "i128": 16}
+                    ok = False
+                    if m:
+                        init = re.sub(r"\s+", "", m.group(2))
+                        m2 = re.fullmatch(r"(?:std::mem::|core::mem::|mem::)?size_of::<(\w+)>\(\)", init)
+                        if m2 and str(SIZES.get(m2.group(1))) == ent["eval"]:
+                            ok = True
+                        if re.fullmatch(r"\d+", init) and init == ent["eval"]:
+                            ok = True
+                    if not ok:
+                        raise Undecided(f"const {ent['name']}: R11 refused (initialiser changed: {txt.strip()!r})")
+                    edits.append((a + len(m.group(1).encode()), b, ent["eval"] + ";", "R11"))
+                    self.rewrites.append({"rule": "R11", "what": f"const {ent['name']} initialiser `{m.group(2)}` evaluated to {ent['eval']}",
+                                          "file": src.rel, "line": src.line_of(a)})
                 if ent["derive"]:
                     em.raw(f"#[derive({ent['derive']})]\n", ("rw", "derive"))
                 self._emit_edits(src, a, b, edits, em)
@@ -555,6 +601,51 @@ class UnitGen:
                 missing = set(wanted) - seen
                 if missing:
                     raise Undecided(f"impl {ent['name']}: fns not found: {sorted(missing)} (lost anchor)")
+            elif ent["type"] == "trait":
+                found = src.find_items("trait", ent["name"])
+                if len(found) != 1:
+                    raise Undecided(f"trait {ent['name']} found {len(found)} times in {src.rel}")
+                tr = found[0]
+                wanted = {f["name"]: f for f in ent["fns"]}
+                a = tr["range"][0]
+                edits = []
+                self._strip_attrs_vis(src, tr, edits, what=f"trait {ent['name']}")
+                bo = tr["brace_open"][1]
+                extra_segs = []
+                for x in ent["extra"]:
+                    extra_segs.extend(self._emit_spec(x, ent["name"], "extra"))
+                if extra_segs:
+                    edits.append((bo, bo, ("MULTI", extra_segs), "extra"))
+                seen = set()
+                for x in tr["items"]:
+                    if x["kind"] != "fn":
+                        continue
+                    for at in x.get("attrs", []):
+                        edits.append((at["range"][0], at["range"][1], "", "R3"))
+                    if x["name"] in wanted:
+                        fs = wanted[x["name"]]
+                        seen.add(x["name"])
+                        qual = f"{ent['name']}::{x['name']}"
+                        if x["block"] is not None:
+                            self._fn_edits(src, x, fs, edits, qual)
+                        else:
+                            if fs["ret"]:
+                                rs, re_ = x["sig"]["ret"]
+                                edits.append((rs, rs, f"({fs['ret']}: ", "R8"))
+                                edits.append((re_, re_, ")", "R8"))
+                            if fs["contract"]:
+                                segs = self._emit_spec(fs["contract"], qual, "contract")
+                                se = x["sig"]["range"][1]
+                                edits.append((se, se, ("MULTI", segs), "contract"))
+                missing = set(wanted) - seen
+                if missing:
+                    raise Undecided(f"trait {ent['name']}: fns not found: {sorted(missing)} (lost anchor)")
+                em.raw(f"// ---- trait {ent['name']} from {src.rel}:{src.line_of(a)}\n")
+                self._emit_edits(src, a, tr["range"][1], edits, em)
+                em.raw("\n")
+                self.items.append({"kind": "trait", "name": ent["name"], "file": src.rel,
+                                   "lines": [src.line_of(a), src.line_of(tr["range"][1])],
+                                   "sha256": hashlib.sha256(src.bytes[a:tr["range"][1]]).hexdigest()})
             elif ent["type"] == "fn":
                 found = src.find_items("fn", ent["name"])
                 if len(found) != 1:
